@@ -107,8 +107,9 @@ impl<S: AsyncRead + AsyncWrite + Unpin> futures::AsyncRead for BufferedStream<S>
                         Message::Binary(chunk) => chunk,
                         _event => return Poll::Ready(Err(std::io::ErrorKind::Unsupported.into())),
                     },
-                    Poll::Ready(Some(Err(_error))) =>
-                        return Poll::Ready(Err(std::io::ErrorKind::UnexpectedEof.into())),
+                    Poll::Ready(Some(Err(_error))) => {
+                        return Poll::Ready(Err(std::io::ErrorKind::UnexpectedEof.into()))
+                    }
                     Poll::Ready(None) => return Poll::Ready(Ok(0)),
                     Poll::Pending => return Poll::Pending,
                 };
